@@ -349,6 +349,9 @@ def run(ctx):
     r5(ctx)
 
 
+RULE_FUNCS = [r1, r2, r3, r4, r5]
+
+
 def _rep(a, b):
     def edit(t):
         if a not in t:
